@@ -437,22 +437,24 @@ class Program:
         self._index_module(m)
         return m
 
-    def expand(self, t, depth=0, skip=frozenset()):
+    def expand(self, t, depth=0, skip=frozenset(), loops=False):
         """Inline calls to module-level lcm / reference functions (loop-free ones).  Functions in
         ``skip`` (those that are compared on their own) stay opaque calls."""
         if not isinstance(t, tuple):
             return t
-        t2 = tuple(self.expand(x, depth, skip) if isinstance(x, tuple) else x for x in t)
+        t2 = tuple(self.expand(x, depth, skip, loops) if isinstance(x, tuple) else x for x in t)
         if is_term(t2) and t2[0] == "call" and depth < 8:
             tgt = t2[1]
             if tgt[0] == "func" and tgt[1] not in skip:
                 info = self.funcs.get(tgt[1])
-                if info is not None and info.parent is None and info.cls is None and not any(
+                if info is not None and info.parent is None and info.cls is None and (loops or not any(
                     isinstance(n, (ast.For, ast.While)) for n in ast.walk(info.node)
-                ) and not info.node.decorator_list:
+                )) and not info.node.decorator_list:
                     r = self.inline(t2)
                     if r is not None and r[0] not in ("unknown",):
-                        return self.expand(r, depth + 1, skip)
+                        return self.expand(r, depth + 1, skip, loops)
+        if is_term(t2) and t2[0] == "sub" and len(t2) == 3 and t2[2][0] == "const" and isinstance(t2[2][1], int):
+            return _project(t2[1], t2[2][1], t2)
         return t2
 
     # ---------------------------------------------------------------- lookup helpers
@@ -507,7 +509,46 @@ class Program:
         ev.bind_params(info.node, bind)
         ev.block(info.node.body)
         ev.finish()
+        if bind is None and info.module not in getattr(self, "extra", set()):
+            self._see_through_helpers(fr)
         return fr
+
+    def _see_through_helpers(self, fr):
+        """Calls of lcm helpers that have no reviewed form of their own (e.g. a helper that a
+        refactoring extracted) are replaced by their inlined value, and projections of tuple results
+        are resolved, so that rules navigate the same value graph whether or not a block of code
+        lives in a helper."""
+        try:
+            from lcmsa.rules_kernel import covered_functions
+
+            skip = covered_functions(self)
+        except Exception:  # noqa: BLE001
+            return
+        skip = skip | {fr.qualname}
+
+        def E(t):
+            # helpers with loops are inlined too: their loops are registered as variants (id@n) and can be
+            # followed from the after-loop values they return
+            return self.expand(t, skip=skip, loops=True)
+
+        for k in list(fr.env):
+            fr.env[k] = E(fr.env[k])
+        if fr.ret is not None:
+            fr.ret = E(fr.ret)
+        fr.returns = [(tuple(E(c) for c in cs), E(t)) for cs, t in fr.returns]
+        fr.raises = [(tuple(E(c) for c in cs), E(t), n) for cs, t, n in fr.raises]
+        fr.effects = [(tuple(E(c) for c in cs), E(t), n) for cs, t, n in fr.effects]
+        for lid, lp in self.loops.items():
+            if lp.func == fr.qualname and "@" not in lid:
+                lp.iter = E(lp.iter)
+                lp.init = {k: E(v) for k, v in lp.init.items()}
+                lp.next = {k: E(v) for k, v in lp.next.items()}
+        # the closures defined in this frame captured the same values
+        for cids in fr.closures.values():
+            for cid in cids:
+                info, snapshot, conds = self.closures[cid]
+                self.closures[cid] = (info, {k: E(v) for k, v in snapshot.items()}, tuple(E(c) for c in conds))
+                self._closure_frames.pop(cid, None)
 
     def closure_frame(self, cid: int, bind: dict | None = None) -> Frame:
         if bind is None and cid in self._closure_frames:
@@ -599,6 +640,17 @@ def specialise(t, conds):
 
 
 _BOTTOM = ("bottom",)
+
+
+def _project(x, i, default):
+    """(a, b, c)[i] -> element; phi(c, T1, T2)[i] -> phi(c, T1[i], T2[i])."""
+    if is_term(x) and x[0] == "tuple" and len(x) == 2 and 0 <= i < len(x[1]) and not any(e[0] == "star" for e in x[1]):
+        return x[1][i]
+    if is_term(x) and x[0] in ("phi", "ifexp") and len(x) == 4:
+        a, b = _project(x[2], i, None), _project(x[3], i, None)
+        if a is not None and b is not None:
+            return (x[0], x[1], a, b)
+    return default
 
 
 def mk_phi(c, a, b, tag="phi"):
